@@ -80,7 +80,7 @@ PVM = V1 + ["contracts.periodic"]
 PROPS["C07"] = dict(level="proof", bounded=[dict(name="c07_runtime", script="harness_solvers.py", args=["--prop", "c07"], wall_s=300)],
     units=[U(PVM, f"{PV}._calculate_period_span_without_discount", timeout_ms=30000), U(PVM, f"{PV}._calculate_period_span_with_discount", timeout_ms=30000),
            U(PVM, f"{PV}._iteration_step", timeout_ms=30000), U(PVM, f"{PV}.solve", pop=[f"{PV}._iteration_step"], timeout_ms=20000),
-           U(PVM, f"{PV}._get_periodic_span"), U(PVM, f"{PV}._initialize_solver_state_elements"), U(PVM, f"{PV}._setup_convergence_testing"), U(PVM, f"{PV}._clear_value_history")],
+           U(PVM, f"{PV}._get_periodic_span"), U(PVM, f"{PV}._initialize_solver_state_elements"), U(PVM, f"{PV}._setup_convergence_testing"), U(PVM, f"{PV}._clear_value_history"), U(PVM, f"{PV}._setup_config")],
     lean=["periodic_gain_bracket", "periodic_gain_within"], assumptions=SOLVER_ASSUME)
 PROPS["C17"] = dict(level="proof", bounded=[dict(name="c17_runtime", script="harness_solvers.py", args=["--prop", "c17"], wall_s=300)], units=[U(["contracts.matrices"], PB, timeout_ms=20000)], lean=["matrix_backup_eq"], assumptions=SOLVER_ASSUME)
 PROPS["C15"] = dict(level="proof", bounded=[dict(name="c15_runtime", script="harness_problems.py", args=["--prop", "c15"], wall_s=300)], units=[U(["contracts.problems"], f"{t}.transition", timeout_ms=30000, wall_s=1200) for t in (DM, HX, MJ, FO)], assumptions=[ARITH, ENGINE])
@@ -107,7 +107,7 @@ PROPS["C20"] = dict(level="proof",
            U(C20M, f"{VI}._setup_convergence_testing", only=["full."], tag="full")]
           + [U(C20M, f"{c}.__post_init__") for c in CFGS]
           + [U(C20M, "mdpax.problems.perishable_inventory.mirjalili_platelet.MirjaliliPlateletPerishableConfig.__post_init__"), U(C20M, "mdpax.utils.logging.verbosity_to_loguru_level")]
-          + CTOR,
+          + CTOR + [U(C20M, "mdpax.core.solver.Solver.set_verbosity"), U(["contracts.checkpointing"], f"{VI}._setup_additional_components")],
     replayers=[("*", "replay_c20.py")],
     bounded=[dict(name="c20_runtime", script="harness_c20.py", wall_s=400)],
     assumptions=[ARITH, ENGINE, "the float64 clause and the equivalence of the three construction routes involve JAX's global x64 flag, Hydra instantiate and the OmegaConf YAML round trip: bounded run-time checks only (fresh processes, 5 solvers x 2 problems), not proved"])
@@ -138,7 +138,8 @@ CKPT_ASSUME = [ARITH, ENGINE,
     "OmegaConf.save/load round-trips the solver+problem configuration; hydra.utils.instantiate(cfg) builds _target_(**fields)",
     "pathlib.Path.mkdir/exists are modelled as a ghost effect log / an arbitrary boolean"]
 PROPS["C12"] = dict(level="proof",
-    units=CAD + [U(["contracts.checkpointing"], f"{CK}._setup_checkpointing")],
+    units=CAD + [U(["contracts.checkpointing"], f"{CK}._setup_checkpointing"), U(["contracts.checkpointing"], f"{CK}.has_full_config"),
+                 U(["contracts.checkpointing"], f"{VI}._setup_additional_components")],
     bounded=[dict(name="c12_runtime", script="harness_ckpt.py", args=["--prop", "c12"], wall_s=400)],
     assumptions=CKPT_ASSUME)
 
